@@ -6,6 +6,8 @@ import (
 	"os"
 	"strings"
 	"time"
+
+	"verif/harness/internal/run"
 )
 
 type req struct {
@@ -36,7 +38,29 @@ func c12Requests() []req {
 	for i := 0; i < 4000; i++ {
 		huge.WriteString("C[1] D_7/F#[2] ")
 	}
+	var modul strings.Builder // a long piece that changes key several times (state carried through hundreds of chords)
+	for i := 0; i < 400; i++ {
+		switch i {
+		case 50:
+			modul.WriteString("D[1]{key=D} ")
+		case 140:
+			modul.WriteString("Eb[1]{key=Eb} ")
+		case 141:
+			modul.WriteString("R[1]{key=F#m} ")
+		case 300:
+			modul.WriteString("C[2]{key=C} ")
+		default:
+			modul.WriteString([]string{"C[1] ", "F#m7b5/A[1,1/2] ", "Bb_7[2] ", "G[1] "}[i%4])
+		}
+	}
+	var longYml strings.Builder // > 32 KiB of instances
+	for i := 0; i < 900; i++ {
+		fmt.Fprintf(&longYml, "- chord: {degree: \"%d\", name: m7}\n  values: [\"1\", \"1/2\"]\n", 1+i%7)
+	}
 	rs := []req{
+		{"text conv long with modulations", []string{"text", "conv", "syllable"}, modul.String()},
+		{"write long", []string{"write"}, longYml.String()},
+		{"write parse long", []string{"write", "parse"}, longYml.String()},
 		{"text conv rests first", []string{"text", "conv", "syllable"}, restsFirst.String()},
 		{"text conv huge", []string{"text", "conv", "syllable", "--key", "G"}, huge.String()},
 		{"text parse", []string{"text", "parse"}, text1},
@@ -117,6 +141,7 @@ func init() {
 				}
 				var stdin []byte
 				var tmp []string
+				stdinMode := ""
 				if rq.stdin != "" {
 					switch i % 5 {
 					case 1:
@@ -128,6 +153,10 @@ func init() {
 						tmp = append(tmp, f)
 						args = append(args, f)
 						variant = append(variant, "FILE")
+					case 3:
+						stdin = []byte(rq.stdin)
+						stdinMode = []string{"file", "slow"}[(i/5)%2] // `< file` redirect; a slow producer writing small blocks
+						variant = append(variant, "stdin-"+stdinMode)
 					default:
 						stdin = []byte(rq.stdin)
 						variant = append(variant, "stdin")
@@ -144,7 +173,7 @@ func init() {
 					args = append(args, "-o", ofile)
 					variant = append(variant, "-o")
 				}
-				r := runWith(bin, args, stdin, env)
+				r := runWith(bin, args, stdin, env, stdinMode)
 				out := r.Stdout
 				if ofile != "" && r.Exit == 0 { // a failed run has no result; whether it leaves an existing file alone is not C12's business
 					if b, err := os.ReadFile(ofile); err == nil {
@@ -172,13 +201,12 @@ func init() {
 	})
 }
 
-func runWith(bin string, args []string, stdin []byte, env []string) (r struct {
+func runWith(bin string, args []string, stdin []byte, env []string, stdinMode string) (r struct {
 	Exit     int
 	Stdout   []byte
 	TimedOut bool
 }) {
-	c := Ctx{Bin: bin}
-	x := c.crdEnv(args, stdin, env, 30*time.Second)
+	x := run.Run(bin, run.Cmd{Args: args, Stdin: stdin, Env: env, Timeout: 60 * time.Second, StdinMode: stdinMode})
 	r.Exit, r.Stdout, r.TimedOut = x.Exit, x.Stdout, x.TimedOut
 	return
 }
